@@ -313,12 +313,48 @@ void __tsan_vptr_read(void **vptr) { rd::access((uintptr_t) vptr, 8, false, PC);
         rd_release((const void *) a);                                                                         \
         return __atomic_fetch_sub(a, v, __ATOMIC_SEQ_CST);                                                    \
     }                                                                                                         \
+    T __tsan_atomic##N##_fetch_and(volatile T *a, T v, int) {                                                 \
+        rd::atomic_point();                                                                                   \
+        rd::access((uintptr_t) a, sizeof(T), true, PC, true);                                                 \
+        rd_acquire((const void *) a);                                                                         \
+        rd_release((const void *) a);                                                                         \
+        return __atomic_fetch_and(a, v, __ATOMIC_SEQ_CST);                                                    \
+    }                                                                                                         \
+    T __tsan_atomic##N##_fetch_or(volatile T *a, T v, int) {                                                  \
+        rd::atomic_point();                                                                                   \
+        rd::access((uintptr_t) a, sizeof(T), true, PC, true);                                                 \
+        rd_acquire((const void *) a);                                                                         \
+        rd_release((const void *) a);                                                                         \
+        return __atomic_fetch_or(a, v, __ATOMIC_SEQ_CST);                                                     \
+    }                                                                                                         \
+    T __tsan_atomic##N##_fetch_xor(volatile T *a, T v, int) {                                                 \
+        rd::atomic_point();                                                                                   \
+        rd::access((uintptr_t) a, sizeof(T), true, PC, true);                                                 \
+        rd_acquire((const void *) a);                                                                         \
+        rd_release((const void *) a);                                                                         \
+        return __atomic_fetch_xor(a, v, __ATOMIC_SEQ_CST);                                                    \
+    }                                                                                                         \
+    T __tsan_atomic##N##_fetch_nand(volatile T *a, T v, int) {                                                \
+        rd::atomic_point();                                                                                   \
+        rd::access((uintptr_t) a, sizeof(T), true, PC, true);                                                 \
+        rd_acquire((const void *) a);                                                                         \
+        rd_release((const void *) a);                                                                         \
+        return __atomic_fetch_nand(a, v, __ATOMIC_SEQ_CST);                                                   \
+    }                                                                                                         \
     int __tsan_atomic##N##_compare_exchange_strong(volatile T *a, T *e, T d, int, int) {                      \
         rd::atomic_point();                                                                                   \
         rd::access((uintptr_t) a, sizeof(T), true, PC, true);                                                 \
         rd_acquire((const void *) a);                                                                         \
         rd_release((const void *) a);                                                                         \
         return __atomic_compare_exchange_n(a, e, d, false, __ATOMIC_SEQ_CST, __ATOMIC_SEQ_CST);               \
+    }                                                                                                         \
+    T __tsan_atomic##N##_compare_exchange_val(volatile T *a, T e, T d, int, int) {                            \
+        rd::atomic_point();                                                                                   \
+        rd::access((uintptr_t) a, sizeof(T), true, PC, true);                                                 \
+        rd_acquire((const void *) a);                                                                         \
+        rd_release((const void *) a);                                                                         \
+        __atomic_compare_exchange_n(a, &e, d, false, __ATOMIC_SEQ_CST, __ATOMIC_SEQ_CST);                     \
+        return e;                                                                                             \
     }                                                                                                         \
     int __tsan_atomic##N##_compare_exchange_weak(volatile T *a, T *e, T d, int, int) {                        \
         rd::atomic_point();                                                                                   \
